@@ -1,6 +1,7 @@
 package props
 
 import (
+	"bytes"
 	"errors"
 	"fmt"
 	"strings"
@@ -68,7 +69,8 @@ func (C20) Execute(sc *core.Scenario, keepLog bool) *core.Result {
 		}
 		rec := e.R.Create(recoveryName, "")
 		s := m.Sess[0]
-		var sent []*gen.Message // messages handed to APPEND so far
+		var sent []*gen.Message  // messages handed to APPEND so far
+		var lastBad *gen.Message // the last single-part message with an undecodable body
 		objs := map[int]*model.Obj{}
 		recHas := func(marker int) bool {
 			for _, mm := range rec.Members {
@@ -148,6 +150,22 @@ func (C20) Execute(sc *core.Scenario, keepLog bool) *core.Result {
 				var msg *gen.Message
 				if a.Arg(2)%3 == 0 && len(sent) > 0 {
 					msg = sent[abs(a.Arg(3))%len(sent)] // byte-identical retry
+				} else if a.Arg(4)%4 == 2 && lastBad != nil {
+					// a DIFFERENT message that shares Subject, addresses and Content-Type with an
+					// undecodable one kept earlier, and whose body differs only behind the point
+					// where decoding fails: it is not a duplicate
+					tw := *lastBad
+					e.nextMark++
+					tw.Marker = e.nextMark
+					tw.Bytes = bytes.Replace(lastBad.Bytes, []byte(fmt.Sprintf("X-Sim-Marker: <%d>", lastBad.Marker)), []byte(fmt.Sprintf("X-Sim-Marker: <%d>", tw.Marker)), 1)
+					tw.Bytes = append(tw.Bytes, []byte(fmt.Sprintf("twin line %d\r\n", tw.Marker))...)
+					e.Msgs[tw.Marker] = &tw
+					msg = &tw
+					sent = append(sent, msg)
+					if recHas(lastBad.Marker) {
+						u.Conn.Arm(simconn.KCreateMessage, simconn.ErrInjected)
+					}
+					e.St.Probes["append_twin_of_undecodable_message"]++
 				} else {
 					opts := gen.Opts{}
 					if a.Arg(2)%5 == 1 {
@@ -159,6 +177,9 @@ func (C20) Execute(sc *core.Scenario, keepLog bool) *core.Result {
 					}
 					msg = e.NewMessage(a.Arg(1), opts)
 					sent = append(sent, msg)
+					if opts.BadEncoding && len(msg.Root.Children) == 0 && msg.Root.Embedded == nil {
+						lastBad = msg
+					}
 				}
 				before := map[string]int{}
 				for _, k := range simconn.AllKinds {
